@@ -121,6 +121,8 @@ type exec struct {
 	lo, hi     int
 	running    bool // Run issued, neither Close nor cancel issued
 	cancelled  bool
+	recvTimes  []int64 // clock value of every receive
+	recvAfter  []int   // number of receives after each executed op (index = op index)
 	lateNil    int  // Run calls after the first that returned nil
 	firstErr   bool // the first Run call returned "already running"
 	everClosed bool
@@ -225,6 +227,7 @@ func (ex *exec) drain(max int) int {
 		case <-ex.ch:
 			ex.mu.Lock()
 			ex.received++
+			ex.recvTimes = append(ex.recvTimes, ex.clk.NowNs())
 			ex.rec("recv t="+strconv.FormatInt(ex.clk.NowNs(), 10), false)
 			ex.mu.Unlock()
 			n++
@@ -439,6 +442,7 @@ func (ex *exec) step(op *Op) bool {
 		ex.hung = "not quiescent after " + op.K
 		return false
 	}
+	ex.recvAfter = append(ex.recvAfter, len(ex.recvTimes))
 	snap := ex.lastSnap
 	now := ex.clk.NowNs()
 	act := ex.clk.Active()
@@ -561,6 +565,96 @@ func maxInt(a, b int) int {
 		return a
 	}
 	return b
+}
+
+// specTimeline is C09 restated as a function (independent of the model and of the limiter):
+// no cap, prompt consumer, Run called first. State: clock, open window (end, extensions k),
+// whether an Add waits. An Add without an open window is signalled at once and opens a window of
+// the initial delay; an Add inside a window waits and moves the window's end to
+// now + min(max, initial·2^(k+1)); when the clock reaches the end, one signal iff something waited.
+type tlState struct {
+	now     int64
+	open    bool
+	end     int64
+	k       uint
+	waiting bool
+}
+
+func (t *tlState) grow(initial, max int64, k uint) int64 {
+	if k == 0 {
+		return initial
+	}
+	if k < 62 && initial <= (max>>k) {
+		if w := initial << k; w < max {
+			return w
+		}
+	}
+	return max
+}
+
+func (t *tlState) add(initial, max int64) []int64 {
+	if !t.open {
+		t.open, t.end, t.k, t.waiting = true, t.now+initial, 0, false
+		return []int64{t.now}
+	}
+	t.k++
+	t.end = t.now + t.grow(initial, max, t.k)
+	t.waiting = true
+	return nil
+}
+
+func (t *tlState) adv(to int64) []int64 {
+	if to > t.now {
+		t.now = to
+	}
+	if t.open && t.end <= t.now {
+		w := t.waiting
+		t.open, t.waiting = false, false
+		if w {
+			return []int64{t.now}
+		}
+	}
+	return nil
+}
+
+// checkTimeline compares the observed receive times with specTimeline over the longest prefix of the
+// executed ops that consists of single Adds and clock moves only.
+func (ex *exec) checkTimeline() {
+	c := ex.c
+	if c.Cap != 0 || c.Consumer != "prompt" || c.LateRun || c.Initial >= 1<<53 {
+		return
+	}
+	var st tlState
+	var want []int64
+	n := 0
+	for i, op := range c.Ops {
+		if i >= len(ex.recvAfter) {
+			break
+		}
+		switch {
+		case op.K == "add" && op.N == 1:
+			want = append(want, st.add(c.Initial, c.Max)...)
+		case op.K == "adv" && !op.Hold && op.Res:
+			want = append(want, st.adv(op.T)...)
+		case op.K == "recv":
+		default:
+			goto done
+		}
+		n = i + 1
+	}
+done:
+	if n == 0 {
+		return
+	}
+	got := ex.recvTimes
+	if k := ex.recvAfter[n-1]; k < len(got) {
+		got = got[:k]
+	}
+	ex.stats["mon:timeline-spec"]++
+	ex.stats["mon:timeline-spec-signals"] += len(want)
+	if fmt.Sprint(got) != fmt.Sprint(want) {
+		ex.violate("timeline-spec-mismatch", fmt.Sprintf("signal times over the first %d ops: observed %v, the property's closed form gives %v", n, got, want))
+	}
 }
 
 // checkWindows: NewTimer(initial), then Reset(min(max, initial·2^k)) for the k-th extension (initial < 2^53).
@@ -753,6 +847,9 @@ func runCase(c Case, gen func(ex *exec, i int) *Op) *outcome {
 	}
 	cancel()
 	ex.checkWindows()
+	if ex.hung == "" {
+		ex.checkTimeline()
+	}
 	if len(ex.panics) > 0 {
 		ex.violate("panic", strings.Join(ex.panics, "; "))
 	}
@@ -817,6 +914,31 @@ func genTimeline(r *lib.Rand) (Case, func(*exec, int) *Op) {
 			return &Op{K: endKind}
 		}
 		return randOp(r, ex)
+	}
+}
+
+// specline: single Adds and clock moves only, no cap, prompt consumer — the whole case is compared
+// with the property's closed form (checkTimeline).
+func genSpecline(r *lib.Rand) (Case, func(*exec, int) *Op) {
+	c := randCfg(r, "specline")
+	c.Cap, c.Consumer = 0, "prompt"
+	n := 8 + r.Intn(40)
+	return c, func(ex *exec, i int) *Op {
+		if i >= n {
+			return nil
+		}
+		switch x := r.Intn(100); {
+		case x < 50:
+			return &Op{K: "add", N: 1, G: 1}
+		case x < 68:
+			return &Op{K: "adv", Rel: "inside"}
+		case x < 84:
+			return &Op{K: "adv", Rel: "exact"}
+		case x < 94:
+			return &Op{K: "adv", Rel: "beyond"}
+		default:
+			return &Op{K: "adv", Rel: "gap"}
+		}
 	}
 }
 
@@ -1331,6 +1453,15 @@ func main() {
 		o := runCase(c, g)
 		report(res, ck, o)
 		if i < 3 {
+			res.Sample(map[string]any{"case": o.Case, "trace": plain(o.Lines)})
+		}
+	}
+	// 3b. timelines compared as a whole with the property's closed form
+	for i := 0; i < 250*mult; i++ {
+		c, g := genSpecline(r)
+		o := runCase(c, g)
+		report(res, ck, o)
+		if i < 1 {
 			res.Sample(map[string]any{"case": o.Case, "trace": plain(o.Lines)})
 		}
 	}
